@@ -306,7 +306,9 @@ func (r *reader) Delete(rs *segment.RewriteSegment) (*reader, error) {
 		return nil, err
 	}
 
-	return r, nil
+	// r could be the reader of a writing segment that has rolled over in the meantime (head is still set),
+	// the rewritten segment is a plain reader segment
+	return &reader{segment: r.segment, params: r.params, version: r.version}, nil
 }
 
 func (r *reader) getIndexNow() (indexer, error) {
